@@ -248,6 +248,24 @@ PROPS = {
                    "thorough": "port range strings of length 3"},
         "outside": ["serde_json parsing of registry and cache files (library; not reachable for CBMC)", "multiaddr text parsing (library)", "round trips through hex::encode/decode themselves", "non-UTF-8 plaintext inside an authenticated wallet blob"],
     },
+    "C18": {
+        "parts": [
+            {"engine": "D", "crate": "d_boot", "harnesses": [
+                {"name": "c18_ops", "covers": ["add_new", "cleanup"], "quick": {"max_paths": 200000, "timeout": 900}, "thorough": {"env": {"C18_OPS": 4}, "max_paths": 3000000, "timeout": 3400}},
+                {"name": "c18_shapes", "covers": ["stored", "refused"], "quick": {"max_paths": 1000, "timeout": 300}},
+                {"name": "c18_sync_flush", "covers": ["merge_with_cleanup", "merge_without_cleanup", "overlap"], "quick": {"max_paths": 100000, "timeout": 600}},
+                {"name": "c18_corrupt", "covers": ["loaded_corrupt"], "quick": {"max_paths": 1000, "timeout": 300}},
+            ]},
+        ],
+        "assumptions": [
+            "engine D on transplanted ant-bootstrap/src/cache_store.rs plus the BootstrapAddr/BootstrapAddresses/craft_valid_multiaddr/multiaddr_get_peer_id items of lib.rs and BootstrapCacheConfig of config.rs; real libp2p Multiaddr/PeerId and real serde_json",
+            "SystemTime/Duration are symbolic 64-bit seconds (the clock is constant within an operation and advances by a symbolic amount when the harness says so); timestamps are serialised as the identity of their term",
+            "atomic-write-file is modelled as 'content appears at the path all at once on commit' over the in-memory file system; std HashMap with a fixed hasher state",
+        ],
+        "bounds": {"quick": "3 operations from {add (3 peers x quic/ws x 2 ports), status update, remove, clean-up, time passes} with max_peers and max_addrs_per_peer in {1,2}; 10 multiaddress shapes; merge of <=3 in-memory with <=2 on-disk addresses with and without clean-up; 6 corrupt file contents",
+                   "thorough": "4 operations"},
+        "outside": ["atomicity of the real rename in atomic-write-file and interleavings of several OS processes flushing one file (not encodable; not claimed)", "multiaddr text parsing (library)", "u32 counter overflow (C17 harnesses)"],
+    },
     "C10": {
         "parts": [
             {"engine": "D", "crate": "d_net", "harnesses": [
